@@ -290,6 +290,11 @@ func buildAlphabet() *alphabet {
 	add(group("H", lv("he", group("")), intLeaf("k", 1)))
 	add(group("", &spec{label: "Attr{}", kind: kEmpty}))
 	add(group("X", group("", &spec{label: "Attr{}", kind: kEmpty})))
+	// an empty KEY with a non-zero value is not an empty attribute (only key AND value zero is)
+	add(intLeaf("", 5))
+	add(leaf(`Any("",errors.New("boom"))`, "", func() slog.Value { return slog.AnyValue(errors.New("boom")) }, str("boom")))
+	add(leaf(`Any("",struct{A:1,B:"x"})`, "", func() slog.Value { return slog.AnyValue(pt{1, "x"}) }, obj(member{"A", num("1")}, member{"B", str("x")})))
+	add(group("K", leaf(`Any("",errors.New("in"))`, "", func() slog.Value { return slog.AnyValue(errors.New("in")) }, str("in"))))
 	// groups whose ONLY member is a LogValuer that resolves to a group without content
 	add(group("P", lv("pe", group(""))))
 	add(group("Q", lv("qe", group("", &spec{label: "Attr{}", kind: kEmpty}, &spec{label: "Attr{}", kind: kEmpty}))))
